@@ -170,7 +170,9 @@ def gen_case(rng, tier):
         text = ['random', ''.join(rng.choice(alphabet) for _ in range(rng.randrange(0, 200)))]
     fx = rng.random()
     pool = ['/app/main.py', '/app/<b>.py', '/app/a&b".py', "/app/it's.py", '@STDLIB@/os.py', '@WERKZEUG@/serving.py', '@CLASTIC@/application.py',
-            '/x/{tb_str}.py', '/very/' + 'long/' * 30 + 'file.py', 'relative.py', '/app/é.py']
+            '/x/{tb_str}.py', '/very/' + 'long/' * 30 + 'file.py', 'relative.py', '/app/é.py',
+            # several spellings of one location: each is a name that was given and must be shown
+            'pkg/views.py', './pkg/views.py', 'pkg/../pkg/views.py', 'pkg//views.py', '/app/sub/../main.py', '/app//main.py', '/app/main.py/']
     if fx < 0.15:
         files = None
     elif fx < 0.25:
